@@ -19,9 +19,9 @@ def run(modname, cases, env_extra, nproc=8, timeout=6000, func="run_case"):
         from .runner import _json_default
 
         json.dump(cases, open(cp, "w"), default=_json_default)
-        env = dict(os.environ, PYTHONPATH="/verif", PYTHONHASHSEED="0")
+        env = dict(os.environ, PYTHONHASHSEED="0")  # PYTHONPATH is inherited
         env.update(env_extra)
-        p = subprocess.run([sys.executable, "-W", "ignore", "-m", "vf.core.subrun", modname, cp, op, str(nproc), func], env=env, capture_output=True, text=True, cwd="/verif", timeout=timeout)
+        p = subprocess.run([sys.executable, "-W", "ignore", "-m", "vf.core.subrun", modname, cp, op, str(nproc), func], env=env, capture_output=True, text=True, cwd=os.path.dirname(os.path.dirname(os.path.dirname(os.path.abspath(__file__)))), timeout=timeout)
         if not os.path.exists(op):
             raise RuntimeError("sub-run of %s with %s failed:\n%s\n%s" % (modname, env_extra, p.stdout[-3000:], p.stderr[-3000:]))
         return json.load(open(op))
